@@ -49,6 +49,13 @@ class HeaderExtensions:
     transport_sequence_number: Optional[int] = None
 
 
+def check_extension_length(name: str, value: bytes, length: int) -> None:
+    if len(value) != length:
+        raise ValueError(
+            f"RTP header extension {name} has an invalid length of {len(value)} bytes"
+        )
+
+
 class HeaderExtensionsMap:
     def __init__(self) -> None:
         self.__ids = HeaderExtensions()
@@ -87,13 +94,17 @@ class HeaderExtensionsMap:
             elif x_id == self.__ids.rtp_stream_id:
                 values.rtp_stream_id = x_value.decode("ascii")
             elif x_id == self.__ids.abs_send_time:
+                check_extension_length("abs-send-time", x_value, 3)
                 values.abs_send_time = unpack("!L", b"\00" + x_value)[0]
             elif x_id == self.__ids.transmission_offset:
+                check_extension_length("toffset", x_value, 3)
                 values.transmission_offset = unpack("!l", x_value + b"\00")[0] >> 8
             elif x_id == self.__ids.audio_level:
+                check_extension_length("ssrc-audio-level", x_value, 1)
                 vad_level = unpack("!B", x_value)[0]
                 values.audio_level = (vad_level & 0x80 == 0x80, vad_level & 0x7F)
             elif x_id == self.__ids.transport_sequence_number:
+                check_extension_length("transport-wide-cc", x_value, 2)
                 values.transport_sequence_number = unpack("!H", x_value)[0]
         return values
 
